@@ -316,7 +316,9 @@ def evalExpr (env : Env N) (ctx : Ctx N) (cur : Row N) : Expr N → R (IVal N)
   | .func q name args =>
     match q with
     | .none | .scoped => do
-      let vs ← evalArgs env ctx cur args
+      -- `FuncArgReader(query, current, expr.Exprs)` is called WITHOUT the expression options: inside a join's ON (hard-coded
+      -- reads on the merged key map) the arguments of a function call read their columns as ordinary paths
+      let vs ← evalArgs env { ctx with hard := false } cur args
       if name = "vf_fail" then
         match vs with
         | [x] =>
@@ -338,7 +340,7 @@ def evalExpr (env : Env N) (ctx : Ctx N) (cur : Row N) : Expr N → R (IVal N)
     if name ∉ aggrNames then .error .error
     else do
       let cur2 : Row N := if ctx.grouped then cur else [("*", .arr ctx.matched)]
-      let vs ← evalAggrArgs env ctx cur2 args
+      let vs ← evalAggrArgs env { ctx with hard := false } cur2 args
       callBuiltin env.dfx.concatNilText name (starOf cur2) ctx.fromLen vs
   | .subq q => do
     let cur' := withMarker cur ctx.data
